@@ -22,7 +22,7 @@ import z3
 class Extern:
     def __init__(self, name):
         self.name = name; self.ret = 'opaque'; self.raises = []   # [(kind, unless_expr or None)]
-        self.ensures = []; self.pure = True; self.args = []; self.time = False
+        self.ensures = []; self.pure = True; self.args = []; self.time = False; self.sets = []
 
 class MethodContract:
     def __init__(self, cls, name):
@@ -70,7 +70,7 @@ def parse_contracts(path):
             if kw == 'module': module = rest; cur = None
             elif kw == 'class': cur = classes.setdefault(rest, ClassSpec(rest)); curk = 'class'
             elif kw == 'method':
-                c, mname = rest.split('.')
+                c, mname = rest.split('.', 1)
                 cs = classes.setdefault(c, ClassSpec(c))
                 cur = cs.methods[mname] = MethodContract(c, mname); cur.line = ln; curk = 'method'
             elif kw == 'extern': cur = externs[rest] = Extern(rest); curk = 'extern'
@@ -100,6 +100,8 @@ def parse_contracts(path):
             elif kw == 'ensures': cur.ensures.append(rest)
             elif kw == 'args': cur.args = [a.strip() for a in rest.split(',')]
             elif kw == 'clock': cur.time = True
+            elif kw == 'sets':
+                n, v = rest.split('=', 1); cur.sets.append((n.strip(), v.strip()))
             else: raise SystemExit('%s:%d: unknown extern clause %r' % (path, ln, kw))
     return module, classes, externs, consts
 
@@ -164,7 +166,12 @@ class Exec:
         for node in tree.body:
             if isinstance(node, ast.ClassDef):
                 for f in node.body:
-                    if isinstance(f, ast.FunctionDef): self.methods[(node.name, f.name)] = f
+                    if isinstance(f, (ast.FunctionDef, ast.AsyncFunctionDef)):
+                        self.methods[(node.name, f.name)] = f
+                        # a function defined inside a method (a hook closure): "method.inner"; `self` is the enclosing one
+                        for g in ast.walk(f):
+                            if g is not f and isinstance(g, (ast.FunctionDef, ast.AsyncFunctionDef)):
+                                self.methods[(node.name, f.name + '.' + g.name)] = g
         self.ufs = {}
         self.notes = set(); self.trusted = set(); self.inlined = set()
 
@@ -209,6 +216,8 @@ class Exec:
             if isinstance(v, str): return R(self.strlit(v))
             raise ToolError('constant %r' % (v,))
         if isinstance(e, ast.JoinedStr): return R(z3.Const('fstring', Obj))
+        if isinstance(e, (ast.Dict, ast.List, ast.Tuple, ast.Set)): return R(z3.Const('literal@%d' % id(e), Obj))
+        if isinstance(e, ast.Starred): return R(z3.Const('starred@%d' % id(e), Obj))
         if isinstance(e, ast.Name):
             if spec is not None:
                 if e.id == 'result': return R(spec['result'])
@@ -228,7 +237,17 @@ class Exec:
                 if (cls, e.attr) in self.methods and spec is None:
                     return self.call_method(cls, e.attr, [], {}, st)
                 raise ToolError('%s:%d: field self.%s is not declared in the contracts' % (self.src, e.lineno, e.attr))
-            raise ToolError('%s:%d: attribute %s' % (self.src, e.lineno, ast.unparse(e)))
+            out = []
+            for s1, base, x in self.expr(e.value, st, cls, spec):
+                if x is not None: out.append((s1, None, x)); continue
+                bv = base.val if isinstance(base, Opt) else base
+                if bv.sort() != Obj: raise ToolError('%s:%d: attribute %s of a non-object' % (self.src, e.lineno, ast.unparse(e)))
+                ext = self.externs.get('.' + e.attr)
+                rt = ext.ret if ext is not None else 'opaque'
+                if ext is not None: self.trusted.add('extern .%s (trusted: a deterministic observer of the object)' % e.attr)
+                fn = self.uf('attr!%s!%s' % (e.attr, rt.replace(' ', '_')), Obj, sort_of(rt))
+                out.append((s1, fn(bv), None))
+            return out
         if isinstance(e, ast.UnaryOp):
             out = []
             for s1, v, x in self.expr(e.operand, st, cls, spec):
@@ -356,6 +375,14 @@ class Exec:
         if isinstance(f, ast.Name): name = f.id
         elif isinstance(f, ast.Attribute): name = ast.unparse(f)
         # logging and formatting: no effect
+        if name in ('str', 'repr') and len(e.args) == 1 and not e.keywords:
+            # str(x): a deterministic function of x (the same term in code and in contracts)
+            out = []
+            for s1, v, x in self.expr(e.args[0], st, cls, spec):
+                if x is not None: out.append((s1, None, x)); continue
+                vv = v.val if isinstance(v, Opt) else v
+                out.append((s1, self.uf('py_str!%s' % vv.sort(), vv.sort(), Obj)(vv), None))
+            return out
         if name and (name.startswith('self._logger.') or name in ('str', 'tb.format_tb', 'repr')):
             return [(st, z3.Const('opaque@%d' % id(e), Obj), None)]
         # evaluate arguments left to right
@@ -370,8 +397,8 @@ class Exec:
                 res = nxt
             return res
         args = list(e.args) + [k.value for k in e.keywords]
-        # method of the same class
-        if isinstance(f, ast.Attribute) and isinstance(f.value, ast.Name) and f.value.id == 'self' and (cls, f.attr) in self.methods:
+        # method of the same class (unless the contracts declare it as an extern: then its contract is used, not its body)
+        if isinstance(f, ast.Attribute) and isinstance(f.value, ast.Name) and f.value.id == 'self' and (cls, f.attr) in self.methods and name not in self.externs:
             out = []
             for s1, vs, x in eval_args(st, args):
                 if x is not None: out.append((s1, None, x)); continue
@@ -389,6 +416,12 @@ class Exec:
                 if x is not None: out.append((s1, None, x)); continue
                 env = State(s1.fields, dict(s1.locs), s1.pc, s1.now)
                 for n, v in zip(ex.args, vs): env.locs[n] = v
+                # ghost effects (`sets`): the call was made, whether it returns or raises
+                if ex.sets:
+                    s1 = s1.clone(); s1.fields = dict(s1.fields)
+                    for fld, ex_text in ex.sets:
+                        (sx, u, _), = self.expr(ast.parse(desugar(ex_text), mode='eval').body, env, cls, {'old': env, 'result': None, 'raised': None})
+                        s1.fields[fld] = u
                 # exceptional outcomes
                 normal_pc = []
                 for kind, unless in ex.raises:
@@ -491,6 +524,20 @@ class Exec:
             if isinstance(s.exc, ast.Call) and isinstance(s.exc.func, ast.Name): kind = s.exc.func.id
             elif isinstance(s.exc, ast.Name): kind = s.exc.id
             return [Outcome(st, 'raise', exc=kind)]
+        if isinstance(s, ast.With):
+            # `with cm:` - __enter__ has no effect here; an exception raised in the body is swallowed iff cm.__exit__ says so
+            # (an uninterpreted predicate of the manager and the exception kind: the manager's own contract is proved elsewhere)
+            out = []
+            cms = []
+            for item in s.items:
+                (s1, cm, x), = self.expr(item.context_expr, st, cls)
+                cms.append(cm.val if isinstance(cm, Opt) else cm)
+            for oc in self.block(s.body, st, cls):
+                if oc.kind != 'raise': out.append(oc); continue
+                sw = z3.Or(*[self.uf('cm_swallows', Obj, Str, z3.BoolSort())(cm, self.strlit(oc.exc)) for cm in cms])
+                s_sw = oc.st.clone(); s_sw.pc.append(sw); out.append(Outcome(s_sw, 'normal'))
+                s_re = oc.st.clone(); s_re.pc.append(z3.Not(sw)); out.append(Outcome(s_re, 'raise', exc=oc.exc))
+            return out
         if isinstance(s, ast.Try):
             if s.finalbody or s.orelse: raise ToolError('%s:%d: try/finally or try/else' % (self.src, s.lineno))
             out = []
@@ -560,6 +607,8 @@ def main():
                     now0 = z3.Real('now@0')
                     st0 = State(fields, {}, [], now0)
                     params = [p.arg for p in fdef.args.args if p.arg != 'self']
+                    for extra in (fdef.args.vararg, fdef.args.kwarg):
+                        if extra is not None: params.append(extra.arg)
                     for p in params: st0.locs[p] = fresh(p, mc.params.get(p, 'opaque'))
                     pre = st0.clone()
                     hyps0 = []
